@@ -206,6 +206,18 @@ theorem readEnd_exact (cfg : Cfg) (w : World) (r : Rd) (n : Nat) (hfit : PieceFi
         · intro r' h; simp at h
 
 
+theorem readEnd_reset (cfg : Cfg) (w : World) (r : Rd) (n : Nat) (r' : Rd)
+    (h : readEnd cfg w r n = .again r') : r' = { r with requestedIndex := -1 } := by
+  unfold readEnd at h
+  simp only [] at h
+  split at h
+  · simp at h
+  · split at h
+    · simp at h; exact h.symm
+    · split at h
+      · split at h <;> simp at h
+      · simp at h
+
 theorem exact_of_frame {w w' : World} {r r' : Rd} {n : Nat} {res : RdRes}
     (hs : SameStore w w') (hc : SameCursor r r') (h : Exact w' r' n res) : Exact w r n res := by
   obtain ⟨c1, c2, c3, _, _⟩ := hc
@@ -402,6 +414,910 @@ theorem C02_progress_cancel (cfg : Cfg) (w : World) (r : Rd) (n c : Nat) :
   · intro h; unfold wake; simp [wakeEnabled, h]; unfold bail; simp only []; split <;> simp
 
 
+/-! ## no Go fault -/
+
+theorem bail_nopanic (cfg : Cfg) (w : World) (r : Rd) (e : RErr) (g : Geom w) :
+    (bail cfg w r e).out ≠ .panic ∧ Geom (bail cfg w r e).w ∧ (bail cfg w r e).r.closed = r.closed := by
+  have hp := request_nopanic cfg w r (-1) (-1) g
+  obtain ⟨hs, hc⟩ := request_frame cfg w r (-1) (-1)
+  unfold bail
+  simp only [hp, Bool.false_eq_true, if_false]
+  exact ⟨by simp, g.same hs, hc.2.2.2.1⟩
+
+theorem readEnd_nopanic (cfg : Cfg) (w : World) (r : Rd) (n : Nat) (g : Geom w)
+    (hoff : 0 ≤ r.offset + r.position) :
+    ∀ res, readEnd cfg w r n = .fin res → res.out ≠ .panic ∧ Geom res.w ∧ res.r.closed = r.closed := by
+  intro res h
+  unfold readEnd at h
+  simp only [] at h
+  obtain ⟨a, ha⟩ := Int.eq_ofNat_of_zero_le hoff
+  rw [ha] at h
+  generalize (if r.position + ↑n < r.length then n else (r.length - r.position).toNat) = m at h
+  cases hra : readAt w m (a : Int) with
+  | panic => exact absurd hra (readAt_nopanic w g m a)
+  | ok bs eof =>
+    rw [hra] at h
+    simp only [] at h
+    split at h
+    · simp at h
+    · split at h
+      · have hp := request_nopanic cfg w r (-1) (-1) g
+        obtain ⟨hs, hc⟩ := request_frame cfg w r (-1) (-1)
+        simp only [hp, Bool.false_eq_true, if_false] at h
+        simp at h; subst h
+        exact ⟨by simp, g.same hs, hc.2.2.2.1⟩
+      · simp at h; subst h; exact ⟨by simp, g, rfl⟩
+
+theorem readFrom_nopanic (fuel : Nat) (cfg : Cfg) (w : World) (r : Rd) (n : Nat) (g : Geom w)
+    (hoff : 0 ≤ r.offset + r.position) :
+    (readFrom fuel cfg w r n).out ≠ .panic ∧ Geom (readFrom fuel cfg w r n).w ∧
+    (readFrom fuel cfg w r n).r.closed = r.closed := by
+  induction fuel generalizing w r with
+  | zero =>
+    unfold readFrom
+    split
+    · exact bail_nopanic cfg w r .ctx g
+    · obtain ⟨hs, hc⟩ := request_frame cfg w r (r.offset + r.position) (r.offset + r.length)
+      have hp := request_nopanic cfg w r (r.offset + r.position) (r.offset + r.length) g
+      have g' := g.same hs
+      have hcl := hc.2.2.2.1
+      simp only [hp, Bool.false_eq_true, if_false]
+      split
+      · exact ⟨by simp, g', hcl⟩
+      · split
+        · split
+          · obtain ⟨b1, b2, b3⟩ := bail_nopanic cfg _ _ .dead g'
+            exact ⟨b1, b2, b3.trans hcl⟩
+          · exact ⟨by simp, g', hcl⟩
+        · have hoff' : 0 ≤ (request cfg w r (r.offset + r.position) (r.offset + r.length)).r.offset +
+              (request cfg w r (r.offset + r.position) (r.offset + r.length)).r.position := by
+            rw [hc.1, hc.2.2.1]; exact hoff
+          have e1 := readEnd_nopanic cfg _ _ n g' hoff'
+          split
+          · rename_i res heq
+            obtain ⟨b1, b2, b3⟩ := e1 res heq
+            exact ⟨b1, b2, b3.trans hcl⟩
+          · rename_i r' heq
+            have e2 := (readEnd_reset cfg _ _ n r' heq)
+            subst e2
+            exact ⟨by simp, g', hcl⟩
+  | succ fuel ih =>
+    unfold readFrom
+    split
+    · exact bail_nopanic cfg w r .ctx g
+    · obtain ⟨hs, hc⟩ := request_frame cfg w r (r.offset + r.position) (r.offset + r.length)
+      have hp := request_nopanic cfg w r (r.offset + r.position) (r.offset + r.length) g
+      have g' := g.same hs
+      have hcl := hc.2.2.2.1
+      simp only [hp, Bool.false_eq_true, if_false]
+      split
+      · exact ⟨by simp, g', hcl⟩
+      · split
+        · split
+          · obtain ⟨b1, b2, b3⟩ := bail_nopanic cfg _ _ .dead g'
+            exact ⟨b1, b2, b3.trans hcl⟩
+          · exact ⟨by simp, g', hcl⟩
+        · have hoff' : 0 ≤ (request cfg w r (r.offset + r.position) (r.offset + r.length)).r.offset +
+              (request cfg w r (r.offset + r.position) (r.offset + r.length)).r.position := by
+            rw [hc.1, hc.2.2.1]; exact hoff
+          have e1 := readEnd_nopanic cfg _ _ n g' hoff'
+          split
+          · rename_i res heq
+            obtain ⟨b1, b2, b3⟩ := e1 res heq
+            exact ⟨b1, b2, b3.trans hcl⟩
+          · rename_i r' heq
+            have e2 := (readEnd_reset cfg _ _ n r' heq)
+            subst e2
+            obtain ⟨b1, b2, b3⟩ := ih _ { (request cfg w r (r.offset + r.position) (r.offset + r.length)).r with requestedIndex := -1 } g' hoff'
+            exact ⟨b1, b2, b3.trans hcl⟩
+
+theorem read_nopanic (cfg : Cfg) (w : World) (r : Rd) (n : Nat) (g : Geom w)
+    (hoff : 0 ≤ r.offset) (hp : 0 ≤ r.position) :
+    (Reader.read cfg w r n).out ≠ .panic ∧ Geom (Reader.read cfg w r n).w ∧
+    (Reader.read cfg w r n).r.closed = r.closed := by
+  unfold Reader.read
+  split
+  · exact ⟨by simp, g, rfl⟩
+  · split
+    · exact bail_nopanic cfg w r .eof g
+    · exact readFrom_nopanic readFuel cfg w r n g (by omega)
+
+theorem wake_nopanic (cfg : Cfg) (w : World) (r : Rd) (n c : Nat) (k : Wake) (g : Geom w)
+    (hoff : 0 ≤ r.offset + r.position) :
+    (wake cfg w r n c k).out ≠ .panic ∧ Geom (wake cfg w r n c k).w ∧
+    (wake cfg w r n c k).r.closed = r.closed := by
+  unfold wake
+  split
+  · exact ⟨by simp, g, rfl⟩
+  · cases k with
+    | dead => exact bail_nopanic cfg w r .dead g
+    | ctx => exact bail_nopanic cfg w r .ctx g
+    | done =>
+      simp only []
+      have e1 := readEnd_nopanic cfg w r n g hoff
+      split
+      · rename_i res heq; exact e1 res heq
+      · rename_i r' heq
+        have e2 := readEnd_reset cfg _ _ n r' heq
+        subst e2
+        exact readFrom_nopanic readFuel cfg w { r with requestedIndex := -1 } n g hoff
+
+theorem close_nopanic (cfg : Cfg) (w : World) (r : Rd) (g : Geom w)
+    (hc : r.closed = true → r.requested = []) :
+    (close cfg w r).2.2 = false ∧ Geom (close cfg w r).1 ∧ (close cfg w r).2.1.closed = true ∧
+    (close cfg w r).2.1.requested = [] := by
+  unfold close
+  by_cases h : r.closed = true
+  · simp [h, hc h, g]
+  · have hp := request_nopanic cfg w r (-1) (-1) g
+    obtain ⟨hs, _⟩ := request_frame cfg w r (-1) (-1)
+    obtain ⟨h1, _⟩ := request_withdraw cfg w r
+    simp [h, hp, g.same hs, h1]
+
+/-! ## op histories: one reader, any sequence of operations, anything the other goroutines
+    do to the store and the requests in between -/
+
+inductive HOp where
+  /-- `Read` with a buffer of `n` bytes (any `n`, also 0) -/
+  | read (n : Nat)
+  /-- the `select` of a blocked `Read` fires with alternative `k` (if enabled) -/
+  | wake (k : Wake)
+  /-- `Seek(o, whence)`: any `Int`, any whence -/
+  | seek (o : Int) (whence : Nat)
+  /-- `SetContext` / the context being cancelled -/
+  | setContext (cancelled : Bool)
+  /-- `Close` (also a second time) -/
+  | close
+  /-- everything else: pieces arrive, are evicted, other consumers and the loop change the
+      requests, the torrent dies — the piece table keeps its length -/
+  | env (data : List (Option Bytes)) (rs : RS) (dead : Bool)
+
+structure HState where
+  w : World
+  r : Rd
+  /-- a `Read(n)` parked on channel `c` -/
+  pend : Option (Nat × Nat) := none
+  /-- a Go fault happened -/
+  faulted : Bool := false
+  /-- the cursor after the last successful `Seek` (initially where the history starts) -/
+  start : Int := 0
+  /-- all bytes returned since -/
+  got : Bytes := []
+
+def absorb (s : HState) (n : Nat) (res : RdRes) : HState :=
+  match res.out with
+  | .ret bs _ => { s with w := res.w, r := res.r, pend := none, got := s.got ++ bs }
+  | .block c => { s with w := res.w, r := res.r, pend := some (n, c) }
+  | .panic => { s with faulted := true }
+  | .spin => s
+
+def hstep (cfg : Cfg) (s : HState) : HOp → HState
+  | .read n => if s.pend.isSome then s else absorb s n (Reader.read cfg s.w s.r n)
+  | .wake k =>
+    match s.pend with
+    | none => s
+    | some (n, c) =>
+      if wakeEnabled s.w s.r c k then absorb s n (wake cfg s.w s.r n c k) else s
+  | .seek o wh =>
+    if s.pend.isSome then s
+    else if (seek s.r o wh).2.2 = none then
+      { s with r := (seek s.r o wh).1, start := (seek s.r o wh).1.position, got := [] }
+    else s
+  | .setContext b => { s with r := { s.r with cancelled := b } }
+  | .close =>
+    if s.pend.isSome then s
+    else { s with w := (close cfg s.w s.r).1, r := (close cfg s.w s.r).2.1,
+                  faulted := s.faulted || (close cfg s.w s.r).2.2 }
+  | .env data rs dead =>
+    if data.length = s.w.data.length then
+      { s with w := { s.w with data := data, rs := rs, dead := dead } }
+    else s
+
+/-- what the store may hold: `C x b` = "byte `b` is admissible at torrent offset `x`".
+    `C = fun _ _ => True`: any bytes (no-fault theorem); `C x b = (b = content x)`: verified
+    content (C01). -/
+def DataOK (C : Nat → UInt8 → Prop) (ps : Nat) (data : List (Option Bytes)) : Prop :=
+  ∀ (i : Nat) (d : Bytes), data[i]? = some (some d) →
+    d.length ≤ ps ∧ ∀ k (hk : k < d.length), C (i * ps + k) d[k]
+
+/-- a history is valid when every environment step leaves an admissible store -/
+inductive ValidRun (C : Nat → UInt8 → Prop) (cfg : Cfg) : HState → List HOp → Prop
+  | nil (s : HState) : ValidRun C cfg s []
+  | cons (s : HState) (op : HOp) (ops : List HOp)
+      (hop : ∀ data rs dead, op = .env data rs dead → DataOK C s.w.ps data)
+      (h : ValidRun C cfg (hstep cfg s op) ops) : ValidRun C cfg s (op :: ops)
+
+def hrun (cfg : Cfg) (s : HState) (ops : List HOp) : HState := ops.foldl (hstep cfg) s
+
+structure HInv (C : Nat → UInt8 → Prop) (s : HState) : Prop where
+  geom : Geom s.w
+  off : 0 ≤ s.r.offset
+  pos : 0 ≤ s.r.position
+  cl : s.r.closed = true → s.r.requested = []
+  pd : s.pend.isSome = true → s.r.position < s.r.length ∧ s.r.closed = false
+  nf : s.faulted = false
+  dok : DataOK C s.w.ps s.w.data
+  st : 0 ≤ s.start ∧ s.start ≤ s.r.position
+  glen : (s.got.length : Int) = s.r.position - s.start
+  gok : ∀ k (hk : k < s.got.length), C ((s.r.offset + s.start).toNat + k) s.got[k]
+
+theorem dataOK_fits {C : Nat → UInt8 → Prop} {w : World} (h : DataOK C w.ps w.data) : PieceFits w :=
+  fun i d hd => (h i d hd).1
+
+theorem dataOK_byte {C : Nat → UInt8 → Prop} {w : World} (h : DataOK C w.ps w.data) (hps : 0 < w.ps)
+    (x : Nat) (b : UInt8) (hb : storeByte w x = some b) : C x b := by
+  unfold storeByte at hb
+  split at hb
+  · rename_i d hd
+    obtain ⟨_, h2⟩ := h _ d hd
+    have hlt : x % w.ps < d.length := by
+      cases Nat.lt_or_ge (x % w.ps) d.length with
+      | inl h => exact h
+      | inr hge => rw [List.getElem?_eq_none hge] at hb; simp at hb
+    rw [List.getElem?_eq_getElem hlt] at hb
+    simp at hb
+    have := h2 (x % w.ps) hlt
+    rw [hb] at this
+    have e : x / w.ps * w.ps + x % w.ps = x := by
+      have := Nat.div_add_mod x w.ps; rw [Nat.mul_comm] at this; exact this
+    rw [e] at this; exact this
+  · simp at hb
+
+theorem bail_out (cfg : Cfg) (w : World) (r : Rd) (e : RErr) :
+    (bail cfg w r e).out = .panic ∨ (bail cfg w r e).out = .ret [] (some e) := by
+  unfold bail; simp only []; split <;> simp
+
+theorem read_block (cfg : Cfg) (w : World) (r : Rd) (n c : Nat)
+    (h : (Reader.read cfg w r n).out = .block c) : r.closed = false ∧ r.position < r.length := by
+  unfold Reader.read at h
+  split at h
+  · simp at h
+  · rename_i hc
+    split at h
+    · rcases bail_out cfg w r .eof with h' | h' <;> rw [h'] at h <;> simp at h
+    · rename_i hp; exact ⟨by simpa using hc, by omega⟩
+
+/-- absorbing the result of a `Read` (or of its continuation) that satisfies `Exact` -/
+theorem hinv_absorb {C : Nat → UInt8 → Prop} {s : HState} (h : HInv C s) (n : Nat) (res : RdRes)
+    (hx : Exact s.w s.r n res) (hnp : res.out ≠ .panic) (hg : Geom res.w)
+    (hcl : res.r.closed = s.r.closed)
+    (hcr : s.r.closed = true → res.r = s.r)
+    (hblk : ∀ c, res.out = .block c → s.r.closed = false ∧ s.r.position < s.r.length) :
+    HInv C (absorb s n res) := by
+  unfold absorb
+  have hps : res.w.ps = s.w.ps := hx.store.1
+  have hdata : res.w.data = s.w.data := hx.store.2.2.2.1
+  cases hout : res.out with
+  | panic => exact absurd hout hnp
+  | spin => exact h
+  | block c =>
+    simp only []
+    obtain ⟨b1, b2⟩ := hblk c hout
+    have hp := hx.blk c hout
+    refine ⟨hg, by rw [hx.off]; exact h.off, by rw [hp]; exact h.pos, ?_, ?_, h.nf, ?_, ?_, ?_, ?_⟩
+    · intro hc; rw [hcl, b1] at hc; simp at hc
+    · intro _; rw [hp, hx.len, hcl]; exact ⟨b2, b1⟩
+    · show DataOK C res.w.ps res.w.data
+      rw [hps, hdata]; exact h.dok
+    · show 0 ≤ s.start ∧ s.start ≤ res.r.position
+      rw [hp]; exact h.st
+    · show (s.got.length : Int) = res.r.position - s.start
+      rw [hp]; exact h.glen
+    · intro k hk
+      show C ((res.r.offset + s.start).toNat + k) s.got[k]
+      rw [hx.off]; exact h.gok k hk
+  | ret bs err =>
+    simp only []
+    obtain ⟨a1, a2, a3, a4, a5, a6⟩ := hx.ret bs err hout
+    have hst := h.st
+    have hpos := h.pos
+    have hoff := h.off
+    refine ⟨hg, by rw [hx.off]; exact h.off, by rw [a2]; omega, ?_, by simp, h.nf, ?_, ?_, ?_, ?_⟩
+    · intro hc
+      rw [hcl] at hc
+      rw [hcr hc]; exact h.cl hc
+    · show DataOK C res.w.ps res.w.data
+      rw [hps, hdata]; exact h.dok
+    · show 0 ≤ s.start ∧ s.start ≤ res.r.position
+      rw [a2]; omega
+    · show (((s.got ++ bs).length : Nat) : Int) = res.r.position - s.start
+      rw [a2, List.length_append]; have := h.glen; omega
+    · intro k hk
+      show C ((res.r.offset + s.start).toNat + k) (s.got ++ bs)[k]
+      rw [hx.off]
+      by_cases hlt : k < s.got.length
+      · rw [List.getElem_append_left hlt]; exact h.gok k hlt
+      · have hge : s.got.length ≤ k := by omega
+        rw [List.getElem_append_right hge]
+        have hk' : k - s.got.length < bs.length := by
+          rw [List.length_append] at hk; omega
+        have hb := a4 (k - s.got.length) hk'
+        have hC := dataOK_byte h.dok h.geom.1 _ _ hb
+        have e : (s.r.offset + s.r.position).toNat + (k - s.got.length) =
+            (s.r.offset + s.start).toNat + k := by
+          have := h.glen; omega
+        rw [e] at hC; exact hC
+
+theorem hinv_step {C : Nat → UInt8 → Prop} (cfg : Cfg) {s : HState} (h : HInv C s) (op : HOp)
+    (hop : ∀ data rs dead, op = .env data rs dead → DataOK C s.w.ps data) :
+    HInv C (hstep cfg s op) := by
+  cases op with
+  | read n =>
+    simp only [hstep]
+    split
+    · exact h
+    · obtain ⟨p1, p2, p3⟩ := read_nopanic cfg s.w s.r n h.geom h.off h.pos
+      apply hinv_absorb h n _ (C02_bytes_exact cfg s.w s.r n (dataOK_fits h.dok) h.off h.pos) p1 p2 p3
+      · intro hc; unfold Reader.read; simp [hc]
+      · intro c hb; exact read_block cfg s.w s.r n c hb
+  | wake k =>
+    simp only [hstep]
+    cases hp : s.pend with
+    | none => exact h
+    | some nc =>
+      obtain ⟨n, c⟩ := nc
+      simp only []
+      split
+      · obtain ⟨b1, b2⟩ := h.pd (by rw [hp]; rfl)
+        have hoff : 0 ≤ s.r.offset + s.r.position := by have := h.off; have := h.pos; omega
+        obtain ⟨p1, p2, p3⟩ := wake_nopanic cfg s.w s.r n c k h.geom hoff
+        apply hinv_absorb h n _ (C02_bytes_exact_wake cfg s.w s.r n c k (dataOK_fits h.dok) hoff b1) p1 p2 p3
+        · intro hc; rw [b2] at hc; simp at hc
+        · intro _ _; exact ⟨b2, b1⟩
+      · exact h
+  | seek o wh =>
+    simp only [hstep]
+    by_cases hpend : s.pend.isSome = true
+    · rw [if_pos hpend]; exact h
+    · rw [if_neg hpend]
+      split
+      · rename_i hnone
+        obtain ⟨s1, _, s3⟩ := C02_seek s.r o wh h.pos
+        have hsame : (seek s.r o wh).1.offset = s.r.offset ∧ (seek s.r o wh).1.length = s.r.length ∧
+            (seek s.r o wh).1.closed = s.r.closed ∧ (seek s.r o wh).1.requested = s.r.requested := by
+          unfold seek; split
+          · exact ⟨rfl, rfl, rfl, rfl⟩
+          · split
+            · exact ⟨rfl, rfl, rfl, rfl⟩
+            · split <;> exact ⟨rfl, rfl, rfl, rfl⟩
+        obtain ⟨e1, e2, e3, e4⟩ := hsame
+        refine ⟨h.geom, by show 0 ≤ (seek s.r o wh).1.offset; rw [e1]; exact h.off, s1, ?_, ?_, h.nf, h.dok,
+          ⟨s1, Int.le_refl _⟩, by simp, by intro k hk; simp at hk⟩
+        · intro hc; show (seek s.r o wh).1.requested = []; rw [e4]; rw [e3] at hc; exact h.cl hc
+        · intro hpd; exact absurd hpd hpend
+      · exact h
+  | setContext b =>
+    exact ⟨h.geom, h.off, h.pos, h.cl, h.pd, h.nf, h.dok, h.st, h.glen, h.gok⟩
+  | close =>
+    simp only [hstep]
+    split
+    · exact h
+    · rename_i hnp
+      obtain ⟨c1, c2, c3, c4⟩ := close_nopanic cfg s.w s.r h.geom h.cl
+      have hfr : SameStore s.w (close cfg s.w s.r).1 ∧ (close cfg s.w s.r).2.1.offset = s.r.offset ∧
+          (close cfg s.w s.r).2.1.position = s.r.position := by
+        unfold close
+        split
+        · exact ⟨SameStore.refl _, rfl, rfl⟩
+        · obtain ⟨hs, hc⟩ := request_frame cfg s.w s.r (-1) (-1)
+          exact ⟨hs, hc.1, hc.2.2.1⟩
+      obtain ⟨f1, f2, f3⟩ := hfr
+      refine ⟨c2, by show 0 ≤ (close cfg s.w s.r).2.1.offset; rw [f2]; exact h.off,
+        by show 0 ≤ (close cfg s.w s.r).2.1.position; rw [f3]; exact h.pos, fun _ => c4, ?_, ?_, ?_, ?_, ?_, ?_⟩
+      · intro hpd; exact absurd hpd hnp
+      · show (s.faulted || (close cfg s.w s.r).2.2) = false; rw [h.nf, c1]; rfl
+      · show DataOK C (close cfg s.w s.r).1.ps (close cfg s.w s.r).1.data
+        rw [f1.1, f1.2.2.2.1]; exact h.dok
+      · show 0 ≤ s.start ∧ s.start ≤ (close cfg s.w s.r).2.1.position
+        rw [f3]; exact h.st
+      · show (s.got.length : Int) = (close cfg s.w s.r).2.1.position - s.start
+        rw [f3]; exact h.glen
+      · intro k hk
+        show C (((close cfg s.w s.r).2.1.offset + s.start).toNat + k) s.got[k]
+        rw [f2]; exact h.gok k hk
+  | env data rs dead =>
+    simp only [hstep]
+    split
+    · rename_i hl
+      obtain ⟨g1, g2, g3⟩ := h.geom
+      refine ⟨⟨g1, by show s.w.numHashes ≤ data.length; rw [hl]; exact g2,
+        by show s.w.total ≤ data.length * s.w.ps; rw [hl]; exact g3⟩, h.off, h.pos, h.cl, h.pd, h.nf,
+        hop data rs dead rfl, h.st, h.glen, h.gok⟩
+    · exact h
+
+theorem hinv_run {C : Nat → UInt8 → Prop} (cfg : Cfg) (ops : List HOp) :
+    ∀ s : HState, HInv C s → ValidRun C cfg s ops → HInv C (hrun cfg s ops) := by
+  induction ops with
+  | nil => intro s h _; exact h
+  | cons op r ih =>
+    intro s h hv
+    cases hv with
+    | cons _ _ _ hop hr => exact ih _ (hinv_step cfg h op hop) hr
+
+/-- the start of a history: any store within the geometry, any reader the front-ends create
+    (`offset ≥ 0`; any length, any cursor ≥ 0) -/
+def hinit (w : World) (r : Rd) : HState := { w := w, r := r, start := r.position }
+
+theorem hinv_init {C : Nat → UInt8 → Prop} (w : World) (r : Rd) (g : Geom w)
+    (hd : DataOK C w.ps w.data) (hoff : 0 ≤ r.offset) (hpos : 0 ≤ r.position)
+    (hcl : r.closed = true → r.requested = []) : HInv C (hinit w r) :=
+  ⟨g, hoff, hpos, hcl, by intro h; simp [hinit] at h, rfl, hd, ⟨hpos, Int.le_refl _⟩,
+   by simp [hinit], by intro k hk; simp [hinit] at hk⟩
+
+/-- **no Go fault.**  For every geometry (positive piece size of any value, piece table
+    covering the torrent, offsets of any magnitude — the model computes in `Int`/`Nat` and
+    makes Go's `uint32` conversions explicit), every reader with `offset ≥ 0` (any length:
+    zero, beyond the torrent; any starting cursor ≥ 0), every store whose piece buffers fit
+    the piece size, and every history of Read (any buffer, also 0) / continuation of a blocked
+    Read / Seek (any whence, any `Int`) / SetContext / Close (repeated, reads after Close) with
+    arbitrary changes of the store, the requests and the torrent's life in between: the
+    model never reaches a Go fault (index or slice out of range, integer division by zero,
+    nil dereference).  That every `Read` returns `n ≤ len(buf)`, `n ≤ length − position`
+    and advances the cursor by exactly `n` is `C02_bytes_exact` at every step. -/
+theorem C02_no_panic (cfg : Cfg) (w : World) (r : Rd) (ops : List HOp) (g : Geom w)
+    (hd : DataOK (fun _ _ => True) w.ps w.data) (hoff : 0 ≤ r.offset) (hpos : 0 ≤ r.position)
+    (hcl : r.closed = true → r.requested = [])
+    (hv : ValidRun (fun _ _ => True) cfg (hinit w r) ops) :
+    (hrun cfg (hinit w r) ops).faulted = false ∧ 0 ≤ (hrun cfg (hinit w r) ops).r.position :=
+  let h := hinv_run cfg ops _ (hinv_init w r g hd hoff hpos hcl) hv
+  ⟨h.nf, h.pos⟩
+
+/-- **history-level exactness** (the sequential consumer's view, what `http.ServeContent`
+    and FUSE rely on): for any history over stores holding verified content, the
+    concatenation of all bytes returned by the Reads since the last successful Seek is the
+    content slice `[offset + pos₀, offset + pos)` where `pos₀` is the cursor that Seek set and
+    `pos` the current cursor — whatever was evicted, re-fetched, cancelled or retried in
+    between, however the reads were cut. -/
+theorem C02_bytes_exact_history (content : Nat → UInt8) (cfg : Cfg) (w : World) (r : Rd)
+    (ops : List HOp) (g : Geom w)
+    (hd : DataOK (fun x b => b = content x) w.ps w.data) (hoff : 0 ≤ r.offset)
+    (hpos : 0 ≤ r.position) (hcl : r.closed = true → r.requested = [])
+    (hv : ValidRun (fun x b => b = content x) cfg (hinit w r) ops) :
+    (hrun cfg (hinit w r) ops).got =
+      (List.range ((hrun cfg (hinit w r) ops).r.position - (hrun cfg (hinit w r) ops).start).toNat).map
+        (fun k => content (((hrun cfg (hinit w r) ops).r.offset +
+          (hrun cfg (hinit w r) ops).start).toNat + k)) := by
+  have h := hinv_run cfg ops _ (hinv_init w r g hd hoff hpos hcl) hv
+  apply List.ext_getElem
+  · simp; have := h.glen; omega
+  · intro k h1 h2
+    simp
+    exact h.gok k h1
+
+/-! ## progress: a parked Read is registered; it returns data once its piece is there -/
+
+/-- the situation of a `Read` parked on channel `c` -/
+structure Registered (w : World) (r : Rd) (c : Nat) : Prop where
+  /-- the cached request is the cursor's piece (the `uint32` index the code computes) -/
+  idx : r.requestedIndex = (cacheIndex w.ps (r.offset + r.position) : Int)
+  /-- … which is requested from the torrent with the reader's priority 1 (> IdlePriority) -/
+  entry : ∃ e, find w.rs.pieces r.requestedIndex.toNat = some e ∧ (1 : Int) ∈ e.prio
+  /-- the channel is open and is the one the reader caches -/
+  isOpen : isClosed w.rs c = false
+  ch : r.ch = some c
+  holds : Holds w r
+  rinv : RInv r
+
+theorem readEnd_fin_out (cfg : Cfg) (w : World) (r : Rd) (n : Nat) (res : RdRes)
+    (h : readEnd cfg w r n = .fin res) : ∀ c, res.out ≠ .block c := by
+  intro c
+  unfold readEnd at h
+  simp only [] at h
+  split at h
+  · simp at h; subst h; simp
+  · split at h
+    · simp at h
+    · split at h
+      · split at h <;> (simp at h; subst h; simp)
+      · simp at h; subst h; simp
+
+theorem bail_noblock (cfg : Cfg) (w : World) (r : Rd) (e : RErr) (c : Nat) :
+    (bail cfg w r e).out ≠ .block c := by
+  rcases bail_out cfg w r e with h | h <;> rw [h] <;> simp
+
+theorem readFrom_block (fuel : Nat) (cfg : Cfg) (w : World) (r : Rd) (n c : Nat) (g : Geom w)
+    (hh : Holds w r) (hr : RInv r) (hb : (readFrom fuel cfg w r n).out = .block c) :
+    Registered (readFrom fuel cfg w r n).w (readFrom fuel cfg w r n).r c := by
+  induction fuel generalizing w r with
+  | zero =>
+    unfold readFrom at hb ⊢
+    split at hb
+    · exact absurd hb (bail_noblock _ _ _ _ _)
+    · rename_i hcan
+      rw [if_neg hcan]
+      obtain ⟨hs, hc⟩ := request_frame cfg w r (r.offset + r.position) (r.offset + r.length)
+      have sp := request_spec cfg w r (r.offset + r.position) (r.offset + r.length) g hh hr
+      have hp := request_nopanic cfg w r (r.offset + r.position) (r.offset + r.length) g
+      simp only [hp, Bool.false_eq_true, if_false] at hb ⊢
+      split at hb
+      · simp at hb
+      · rename_i herr
+        try simp only [herr] at hb ⊢
+        split at hb
+        · rename_i c' hblk
+          try simp only [hblk]
+          split at hb
+          · exact absurd hb (bail_noblock _ _ _ _ _)
+          · rename_i hdead
+            try rw [if_neg hdead]
+            simp at hb; subst hb
+            cases hq : (request cfg w r (r.offset + r.position) (r.offset + r.length)).ch with
+            | none => rw [hq] at hblk; simp at hblk
+            | some c2 =>
+              rw [hq] at hblk
+              simp only [] at hblk
+              split at hblk
+              · simp at hblk
+              · rename_i hopen
+                simp at hblk; subst hblk
+                obtain ⟨a1, a2, a3, a4⟩ := sp.cached c2 hq
+                refine ⟨?_, ?_, by simpa using hopen, by rw [sp.chEq, hq], sp.holds, sp.rinv⟩
+                · show (request cfg w r (r.offset + r.position) (r.offset + r.length)).r.requestedIndex = _
+                  rw [a4, hs.1, hc.1, hc.2.2.1]
+                · have hcnt : 0 < cnt (request cfg w r (r.offset + r.position) (r.offset + r.length)).w.rs
+                      (request cfg w r (r.offset + r.position) (r.offset + r.length)).r.requestedIndex.toNat 1 :=
+                    Nat.lt_of_lt_of_le (List.count_pos_iff.2 a2) (sp.holds _ (1 : Int))
+                  unfold cnt at hcnt
+                  cases hf : find (request cfg w r (r.offset + r.position) (r.offset + r.length)).w.rs.pieces
+                      (request cfg w r (r.offset + r.position) (r.offset + r.length)).r.requestedIndex.toNat with
+                  | none => rw [hf] at hcnt; simp at hcnt
+                  | some e => rw [hf] at hcnt; exact ⟨e, rfl, List.count_pos_iff.1 hcnt⟩
+        · rename_i hblk
+          try simp only [hblk] at ⊢
+          split at hb
+          · rename_i res heq; exact absurd hb (readEnd_fin_out _ _ _ _ _ heq c)
+          · simp at hb
+  | succ fuel ih =>
+    unfold readFrom at hb ⊢
+    split at hb
+    · exact absurd hb (bail_noblock _ _ _ _ _)
+    · rename_i hcan
+      rw [if_neg hcan]
+      obtain ⟨hs, hc⟩ := request_frame cfg w r (r.offset + r.position) (r.offset + r.length)
+      have sp := request_spec cfg w r (r.offset + r.position) (r.offset + r.length) g hh hr
+      have hp := request_nopanic cfg w r (r.offset + r.position) (r.offset + r.length) g
+      simp only [hp, Bool.false_eq_true, if_false] at hb ⊢
+      split at hb
+      · simp at hb
+      · rename_i herr
+        try simp only [herr] at hb ⊢
+        split at hb
+        · rename_i c' hblk
+          try simp only [hblk]
+          split at hb
+          · exact absurd hb (bail_noblock _ _ _ _ _)
+          · rename_i hdead
+            try rw [if_neg hdead]
+            simp at hb; subst hb
+            cases hq : (request cfg w r (r.offset + r.position) (r.offset + r.length)).ch with
+            | none => rw [hq] at hblk; simp at hblk
+            | some c2 =>
+              rw [hq] at hblk
+              simp only [] at hblk
+              split at hblk
+              · simp at hblk
+              · rename_i hopen
+                simp at hblk; subst hblk
+                obtain ⟨a1, a2, a3, a4⟩ := sp.cached c2 hq
+                refine ⟨?_, ?_, by simpa using hopen, by rw [sp.chEq, hq], sp.holds, sp.rinv⟩
+                · show (request cfg w r (r.offset + r.position) (r.offset + r.length)).r.requestedIndex = _
+                  rw [a4, hs.1, hc.1, hc.2.2.1]
+                · have hcnt : 0 < cnt (request cfg w r (r.offset + r.position) (r.offset + r.length)).w.rs
+                      (request cfg w r (r.offset + r.position) (r.offset + r.length)).r.requestedIndex.toNat 1 :=
+                    Nat.lt_of_lt_of_le (List.count_pos_iff.2 a2) (sp.holds _ (1 : Int))
+                  unfold cnt at hcnt
+                  cases hf : find (request cfg w r (r.offset + r.position) (r.offset + r.length)).w.rs.pieces
+                      (request cfg w r (r.offset + r.position) (r.offset + r.length)).r.requestedIndex.toNat with
+                  | none => rw [hf] at hcnt; simp at hcnt
+                  | some e => rw [hf] at hcnt; exact ⟨e, rfl, List.count_pos_iff.1 hcnt⟩
+        · rename_i hblk
+          try simp only [hblk] at ⊢
+          split at hb
+          · rename_i res heq; exact absurd hb (readEnd_fin_out _ _ _ _ _ heq c)
+          · rename_i r' heq
+            try simp only [heq]
+            have e2 := readEnd_reset cfg _ _ n r' heq
+            subst e2
+            exact ih _ _ (g.same hs) sp.holds (by intro h; simp at h) hb
+
+/-- **progress (b): a blocked Read is registered.**  Whenever `Read` parks — for every
+    geometry, store, state of the requests and cached state of the reader that satisfies the
+    reader's own invariants (`Holds`, `RInv`: both hold initially and are preserved by every
+    reader operation, `C02_reader_invariants`) — the piece under the cursor (the `uint32`
+    index the code computes, `C02_index_no_truncation`) is requested from the torrent with
+    the reader's priority 1, and the channel it waits on is open and cached.  With
+    `C10_open_channel_awaited`/`C10_done_wakes` that channel is the one the completion of
+    that piece closes. -/
+theorem C02_blocked_is_registered (cfg : Cfg) (w : World) (r : Rd) (n c : Nat) (g : Geom w)
+    (hh : Holds w r) (hr : RInv r) (hb : (Reader.read cfg w r n).out = .block c) :
+    Registered (Reader.read cfg w r n).w (Reader.read cfg w r n).r c := by
+  unfold Reader.read at hb ⊢
+  by_cases h1 : r.closed = true
+  · rw [if_pos h1] at hb; simp at hb
+  · rw [if_neg h1] at hb ⊢
+    by_cases h2 : r.position ≥ r.length
+    · rw [if_pos h2] at hb; exact absurd hb (bail_noblock _ _ _ _ _)
+    · rw [if_neg h2] at hb ⊢
+      exact readFrom_block readFuel cfg w r n c g hh hr hb
+
+/-- the same when the continuation of a blocked Read parks again (stale notification, the
+    piece evicted again before `ReadAt`: `Read` starts over and re-registers) -/
+theorem C02_blocked_is_registered_wake (cfg : Cfg) (w : World) (r : Rd) (n c c' : Nat) (k : Wake)
+    (g : Geom w) (hh : Holds w r) (hen : wakeEnabled w r c k = true)
+    (hb : (wake cfg w r n c k).out = .block c') :
+    Registered (wake cfg w r n c k).w (wake cfg w r n c k).r c' := by
+  unfold wake at hb ⊢
+  simp only [hen, Bool.not_true, Bool.false_eq_true, if_false] at hb ⊢
+  cases k with
+  | dead => exact absurd hb (bail_noblock _ _ _ _ _)
+  | ctx => exact absurd hb (bail_noblock _ _ _ _ _)
+  | done =>
+    simp only [] at hb ⊢
+    split at hb
+    · rename_i res heq; exact absurd hb (readEnd_fin_out _ _ _ _ _ heq c')
+    · rename_i r' heq
+      have e2 := readEnd_reset cfg _ _ n r' heq
+      subst e2
+      exact readFrom_block readFuel cfg w _ n c' g hh (by intro h; simp at h) hb
+
+/-! the reader's own invariants are preserved by everything it does -/
+
+def Keeps (res : RdRes) : Prop := Holds res.w res.r ∧ RInv res.r
+
+theorem bail_keeps (cfg : Cfg) (w : World) (r : Rd) (e : RErr) (g : Geom w) (hh : Holds w r)
+    (hr : RInv r) : Keeps (bail cfg w r e) := by
+  have sp := request_spec cfg w r (-1) (-1) g hh hr
+  unfold bail; simp only []; split <;> exact ⟨sp.holds, sp.rinv⟩
+
+theorem readEnd_keeps (cfg : Cfg) (w : World) (r : Rd) (n : Nat) (g : Geom w) (hh : Holds w r)
+    (hr : RInv r) : ∀ res, readEnd cfg w r n = .fin res → Keeps res := by
+  intro res h
+  unfold readEnd at h
+  simp only [] at h
+  split at h
+  · simp at h; subst h; exact ⟨hh, hr⟩
+  · split at h
+    · simp at h
+    · split at h
+      · have sp := request_spec cfg w r (-1) (-1) g hh hr
+        split at h
+        · simp at h; subst h; exact ⟨sp.holds, sp.rinv⟩
+        · simp at h; subst h; exact ⟨sp.holds, sp.rinv⟩
+      · simp at h; subst h; exact ⟨hh, hr⟩
+
+theorem readFrom_keeps (fuel : Nat) (cfg : Cfg) (w : World) (r : Rd) (n : Nat) (g : Geom w)
+    (hh : Holds w r) (hr : RInv r) : Keeps (readFrom fuel cfg w r n) := by
+  induction fuel generalizing w r with
+  | zero =>
+    unfold readFrom
+    split
+    · exact bail_keeps cfg w r .ctx g hh hr
+    · obtain ⟨hs, _⟩ := request_frame cfg w r (r.offset + r.position) (r.offset + r.length)
+      have sp := request_spec cfg w r (r.offset + r.position) (r.offset + r.length) g hh hr
+      have g' := g.same hs
+      simp only []
+      split
+      · exact ⟨sp.holds, sp.rinv⟩
+      · split
+        · exact ⟨sp.holds, sp.rinv⟩
+        · split
+          · split
+            · exact bail_keeps cfg _ _ .dead g' sp.holds sp.rinv
+            · exact ⟨sp.holds, sp.rinv⟩
+          · split
+            · rename_i res heq; exact readEnd_keeps cfg _ _ n g' sp.holds sp.rinv res heq
+            · rename_i r' heq
+              have e2 := readEnd_reset cfg _ _ n r' heq
+              subst e2
+              exact ⟨sp.holds, by intro h; simp at h⟩
+  | succ fuel ih =>
+    unfold readFrom
+    split
+    · exact bail_keeps cfg w r .ctx g hh hr
+    · obtain ⟨hs, _⟩ := request_frame cfg w r (r.offset + r.position) (r.offset + r.length)
+      have sp := request_spec cfg w r (r.offset + r.position) (r.offset + r.length) g hh hr
+      have g' := g.same hs
+      simp only []
+      split
+      · exact ⟨sp.holds, sp.rinv⟩
+      · split
+        · exact ⟨sp.holds, sp.rinv⟩
+        · split
+          · split
+            · exact bail_keeps cfg _ _ .dead g' sp.holds sp.rinv
+            · exact ⟨sp.holds, sp.rinv⟩
+          · split
+            · rename_i res heq; exact readEnd_keeps cfg _ _ n g' sp.holds sp.rinv res heq
+            · rename_i r' heq
+              have e2 := readEnd_reset cfg _ _ n r' heq
+              subst e2
+              exact ih _ _ g' sp.holds (by intro h; simp at h)
+
+/-- **reader invariants** (the registration half of C10's reader balance): after `Read`,
+    after the continuation of a blocked `Read`, after `Seek` and after `Close`, every
+    registration listed in `r.requested` is present in `Torrent.requested` (`Holds`) and the
+    cached request is consistent (`RInv`).  Other consumers keep `Holds` as long as they only
+    withdraw what they hold (`C10_priorities_balance`). -/
+theorem C02_reader_invariants (cfg : Cfg) (w : World) (r : Rd) (g : Geom w) (hh : Holds w r)
+    (hr : RInv r) :
+    (∀ n, Keeps (Reader.read cfg w r n)) ∧
+    (∀ n c k, Keeps (wake cfg w r n c k)) ∧
+    (∀ o wh, Holds w (seek r o wh).1 ∧ RInv (seek r o wh).1) ∧
+    (Holds (close cfg w r).1 (close cfg w r).2.1 ∧ RInv (close cfg w r).2.1) := by
+  refine ⟨?_, ?_, ?_, ?_⟩
+  · intro n
+    unfold Reader.read
+    split
+    · exact ⟨hh, hr⟩
+    · split
+      · exact bail_keeps cfg w r .eof g hh hr
+      · exact readFrom_keeps readFuel cfg w r n g hh hr
+  · intro n c k
+    unfold wake
+    split
+    · exact ⟨hh, hr⟩
+    · cases k with
+      | dead => exact bail_keeps cfg w r .dead g hh hr
+      | ctx => exact bail_keeps cfg w r .ctx g hh hr
+      | done =>
+        simp only []
+        split
+        · rename_i res heq; exact readEnd_keeps cfg w r n g hh hr res heq
+        · rename_i r' heq
+          have e2 := readEnd_reset cfg _ _ n r' heq
+          subst e2
+          exact readFrom_keeps readFuel cfg w _ n g hh (by intro h; simp at h)
+  · intro o wh
+    unfold seek
+    split
+    · exact ⟨hh, hr⟩
+    · split
+      · exact ⟨hh, hr⟩
+      · split <;> exact ⟨hh, hr⟩
+  · unfold close
+    split
+    · exact ⟨hh, hr⟩
+    · have sp := request_spec cfg w r (-1) (-1) g hh hr
+      exact ⟨sp.holds, sp.rinv⟩
+
+theorem readAt_avail (w : World) (g : Geom w) (m a : Nat) (hm : 0 < m) (ha : a < w.total)
+    (hb : storeByte w a ≠ none) : ∃ bs, readAt w m (a : Int) = .ok bs false ∧ 1 ≤ bs.length := by
+  obtain ⟨hps, _, _⟩ := g
+  unfold storeByte at hb
+  unfold readAt
+  have h0 : ¬ ((a : Int) ≥ (w.total : Int)) := by omega
+  have hps' : ¬ w.ps = 0 := by omega
+  rw [if_neg h0, if_neg hps']
+  have hdiv : Int.tdiv (a : Int) (w.ps : Int) = ((a / w.ps : Nat) : Int) := by simp [Int.tdiv]
+  have hmod : Int.tmod (a : Int) (w.ps : Int) = ((a % w.ps : Nat) : Int) := by simp [Int.tmod]
+  simp only [hdiv, hmod]
+  have h1 : ¬ ((a / w.ps : Nat) : Int) < 0 := by have := Int.natCast_nonneg (a / w.ps); omega
+  rw [if_neg h1]
+  simp only [Int.toNat_natCast]
+  split at hb
+  · rename_i d hd
+    rw [hd]
+    simp only []
+    have hlt : a % w.ps < d.length := by
+      cases Nat.lt_or_ge (a % w.ps) d.length with
+      | inl h => exact h
+      | inr hge => rw [List.getElem?_eq_none hge] at hb; simp at hb
+    have h2 : ¬ ((d.length : Int) ≤ ((a % w.ps : Nat) : Int)) := by omega
+    have h3 : ¬ (((a % w.ps : Nat) : Int) < 0) := by have := Int.natCast_nonneg (a % w.ps); omega
+    rw [if_neg h2, if_neg h3]
+    refine ⟨_, rfl, ?_⟩
+    simp [List.length_take]
+    omega
+  · simp at hb
+
+/-- **progress (a) / wake.**  A `Read` parked on channel `c` whose piece has meanwhile been
+    verified and is still in memory (the store holds the byte under the cursor), once `c` is
+    closed (`C10_no_lost_wakeup`: the `TorHave` of that verification is in flight, and
+    handling it closes `c`, `C10_done_wakes`) returns at least one byte — the exact bytes by
+    `C02_bytes_exact_wake`. -/
+theorem C02_progress_wake (cfg : Cfg) (w : World) (r : Rd) (n c : Nat) (g : Geom w)
+    (hn : 0 < n) (hoff : 0 ≤ r.offset + r.position) (hpos : r.position < r.length)
+    (hin : r.offset + r.position < w.total)
+    (hclosed : isClosed w.rs c = true)
+    (hbyte : storeByte w (r.offset + r.position).toNat ≠ none) :
+    ∃ bs err, (wake cfg w r n c .done).out = .ret bs err ∧ 1 ≤ bs.length := by
+  obtain ⟨a, ha⟩ := Int.eq_ofNat_of_zero_le hoff
+  unfold wake
+  simp only [wakeEnabled, hclosed, Bool.not_true, Bool.false_eq_true, if_false]
+  unfold readEnd
+  simp only []
+  generalize hm : (if r.position + ↑n < r.length then n else (r.length - r.position).toNat) = m
+  have hmpos : 0 < m := by subst hm; split <;> omega
+  rw [ha] at hbyte ⊢
+  simp only [Int.toNat_natCast] at hbyte
+  obtain ⟨bs, hra, hlen⟩ := readAt_avail w g m a hmpos (by omega) hbyte
+  rw [hra]
+  simp only []
+  have hz : ¬ (bs.length = 0 ∧ True ∧ n > 0) := by omega
+  rw [if_neg hz]
+  have hp := request_nopanic cfg w r (-1) (-1) g
+  by_cases he : (false || decide ((bs.length : Int) = r.length - r.position)) = true
+  · rw [if_pos he]
+    simp only [hp, Bool.false_eq_true, if_false]
+    exact ⟨bs, some .eof, rfl, hlen⟩
+  · rw [if_neg he]
+    exact ⟨bs, none, rfl, hlen⟩
+
+/-- **the window.**  Whenever `Reader.request` leaves its cache (the cursor entered another
+    piece, or the cache was dropped) and its first request succeeds, what the reader holds
+    registered afterwards is exactly the window `Reader.chunks` computes from the position,
+    the prefetch parameters, the piece size and the limit, minus the pieces that need no
+    request (already complete, beyond the hash table, torrent dead): nothing else, nothing
+    missing.  The shape of that window is `chunks_spec`: it starts with the cursor's piece at
+    priority 1, every other entry has priority 0 (aggressive prefetch) or -1. -/
+theorem C02_window_exact (cfg : Cfg) (w : World) (r : Rd) (pos limit : Int) (g : Geom w)
+    (hh : Holds w r) (l : List (Nat × Int)) (hl : chunks cfg w.ps pos limit = some l)
+    (hok : (requestSlow false cfg w r pos limit).err = none) :
+    (requestSlow false cfg w r pos limit).r.requested = l.filter (fun c => regB w c.1) ∧
+    ((l = [] ∧ (pos < 0 ∨ pos > limit)) ∨
+     (0 ≤ pos ∧ pos ≤ limit ∧ ∃ rest, l = (cacheIndex w.ps pos, 1) :: rest ∧
+        ∀ c ∈ rest, c.2 = 0 ∨ c.2 = -1)) := by
+  refine ⟨(requestSlow_spec false cfg w r pos limit g hh).window l hl hok, ?_⟩
+  rcases chunks_spec cfg w.ps pos limit l hl with h | ⟨p1, p2, rest, h1, h2⟩
+  · exact Or.inl h
+  · right
+    refine ⟨p1, p2, rest, ?_, h2⟩
+    obtain ⟨a, ha⟩ := Int.eq_ofNat_of_zero_le p1
+    rw [h1, ha, cacheIndex_nat]; simp
+
+/-- **no harmful truncation.**  The code computes the piece index as `uint32(pos / ps)`.
+    Inside a torrent whose piece table has at most 2^32 entries (what `MetadataComplete`
+    accepts: the chunk count must fit `uint32`) the conversion loses nothing, for offsets of
+    any magnitude (≥ 2^32 included) and any piece size: the index is `pos / ps`. -/
+theorem C02_index_no_truncation (w : World) (g : Geom w) (hn : w.data.length ≤ 4294967296)
+    (pos : Int) (h0 : 0 ≤ pos) (hlt : pos < w.total) :
+    cacheIndex w.ps pos = pos.toNat / w.ps := by
+  obtain ⟨a, ha⟩ := Int.eq_ofNat_of_zero_le h0
+  obtain ⟨hps, _, htot⟩ := g
+  rw [ha, cacheIndex_nat]
+  simp
+  have : a / w.ps < w.data.length := by
+    apply (Nat.div_lt_iff_lt_mul hps).2; omega
+  omega
+
+/-- **short reads.**  `Read` hands its (clipped) buffer to one `ReadAt`; a non-empty result
+    shorter than the buffer ends exactly at the end of the cursor piece's data: reads are cut
+    only by the buffer, the window (`C02_bytes_exact`) and the piece boundary. -/
+theorem C02_short_read (w : World) (g : Geom w) (m a : Nat) (bs : Bytes)
+    (h : readAt w m (a : Int) = .ok bs false) (hne : bs ≠ []) :
+    ∃ d, w.data[a / w.ps]? = some (some d) ∧ bs.length = min m (d.length - a % w.ps) := by
+  obtain ⟨hps, _, _⟩ := g
+  unfold readAt at h
+  split at h
+  · simp at h
+  · have hps' : ¬ w.ps = 0 := by omega
+    rw [if_neg hps'] at h
+    have hdiv : Int.tdiv (a : Int) (w.ps : Int) = ((a / w.ps : Nat) : Int) := by simp [Int.tdiv]
+    have hmod : Int.tmod (a : Int) (w.ps : Int) = ((a % w.ps : Nat) : Int) := by simp [Int.tmod]
+    simp only [hdiv, hmod] at h
+    have h1 : ¬ ((a / w.ps : Nat) : Int) < 0 := by have := Int.natCast_nonneg (a / w.ps); omega
+    rw [if_neg h1] at h
+    simp only [Int.toNat_natCast] at h
+    split at h
+    · simp at h
+    · simp at h; exact absurd h hne
+    · rename_i d hd
+      split at h
+      · simp at h; exact absurd h hne
+      · split at h
+        · simp at h
+        · simp at h
+          subst h
+          exact ⟨d, hd, by simp [List.length_take]⟩
+
+/-- the hypothesis `offset ≥ 0` of `C02_no_panic` is necessary: `ReadAt` at a negative
+    offset indexes piece 0 with a negative start when that piece is complete (Go: slice
+    bounds out of range).  `NewReader` accepts any offset; its two callers (`http.file`,
+    `fuse.Open`) pass file offsets of the torrent's file table, which are ≥ 0. -/
+theorem C02_negative_offset_faults :
+    readAt { ps := 4, total := 10, numHashes := 3, data := [some [1, 2, 3, 4], none, none] } 1 (-1)
+      = .panic := by decide
+
 /-! non-vacuity: a store with a complete piece satisfies `PieceFits`, and a window inside it
     satisfies the hypotheses of `C02_bytes_exact` / `C02_eof_exact` -/
 example : PieceFits { ps := 4, total := 10, numHashes := 3, data := [some [1, 2, 3, 4], none, none] } := by
@@ -415,5 +1331,36 @@ example : storeByte { ps := 4, total := 10, numHashes := 3, data := [some [1, 2,
   decide
 example : ∃ r : Rd, 0 ≤ r.offset ∧ 0 ≤ r.position ∧ r.offset + r.length ≤ (10 : Nat) ∧ r.position < r.length :=
   ⟨{ offset := 1, length := 5 }, by decide, by decide, by decide, by decide⟩
+
+
+/-! non-vacuity for the history theorems, the progress theorems and the window -/
+example : Geom { ps := 4, total := 10, numHashes := 3, data := [some [1, 2, 3, 4], none, none] } := by
+  refine ⟨by decide, by decide, by decide⟩
+example : DataOK (fun _ _ => True) 4 [some [1, 2, 3, 4], none, none] := by
+  intro i d h
+  match i with
+  | 0 => simp at h; subst h; exact ⟨by decide, fun _ _ => trivial⟩
+  | 1 => simp at h
+  | 2 => simp at h
+  | k + 3 => simp at h
+/-- a fresh reader satisfies the reader invariants in any world -/
+example (w : World) (off len : Int) : Holds w { offset := off, length := len } ∧ RInv { offset := off, length := len } :=
+  ⟨by intro j q; simp, by intro h; simp at h⟩
+/-- a valid history with every kind of operation, including an environment step that evicts
+    the piece and kills the torrent -/
+example (cfg : Cfg) (s : HState) : ValidRun (fun _ _ => True) cfg s
+    [.read 10, .seek (-3) 2, .setContext true, .wake .ctx, .env (List.replicate s.w.data.length none) {} true,
+     .close, .close, .read 0] := by
+  have hnone : ∀ (n ps : Nat), DataOK (fun _ _ => True) ps (List.replicate n none) := by
+    intro n ps i d h
+    rw [List.getElem?_replicate] at h
+    split at h <;> simp at h
+  repeat' first
+    | exact ValidRun.nil _
+    | apply ValidRun.cons
+  all_goals first
+    | (intro data rs dead h; cases h; exact hnone _ _)
+    | (intro data rs dead h; cases h)
+example : chunks { pf := fun _ => 1, aggr := fun _ => false } 4 (-1) (-1) = some [] := by simp [chunks]
 
 end Storrent.Props.C02
